@@ -26,7 +26,9 @@ class PendingExprGeneric(typing.Generic[T]):
             if not hasattr(self.node, field_name):
                 continue
             field = getattr(self.node, field_name)
-            if isinstance(field, expr):
+            if isinstance(field, AST):
+                # expressions, and helper nodes that contain expressions
+                # (e.g. the `arguments` of a lambda with its default values)
                 self.converted_dict[field_name] = yield field
             elif isinstance(field, list):
                 converted_list = self.converted_dict[field_name] = []
